@@ -1,0 +1,35 @@
+//go:build verif
+
+package exit
+
+import (
+	"net"
+	"time"
+
+	"github.com/postalsys/muti-metroo/internal/crypto"
+	"github.com/postalsys/muti-metroo/internal/identity"
+)
+
+// VerifAttach registers an already-established destination connection with
+// its session key and starts the handler's readLoop on it, exactly as the
+// tail of handleStreamOpenAsync does after a successful dial. It lets the
+// verification harness feed readLoop from a scripted net.Conn (exact read
+// sizes) instead of a kernel socket.
+func (h *Handler) VerifAttach(streamID uint64, remoteID identity.AgentID, conn net.Conn, key *crypto.SessionKey) {
+	ac := &ActiveConnection{
+		StreamID:   streamID,
+		RemoteID:   remoteID,
+		Conn:       conn,
+		StartedAt:  time.Now(),
+		sessionKey: key,
+	}
+	h.mu.Lock()
+	h.connections[streamID] = ac
+	h.connCount.Add(1)
+	h.mu.Unlock()
+	h.wg.Add(1)
+	go func() {
+		defer h.wg.Done()
+		h.readLoop(ac)
+	}()
+}
